@@ -490,10 +490,13 @@ def run_both(loaded, tracker, packet, arrays=None, ktimes=None, randoms=None,
     return obs
 
 
-def array_fd(tracker, size):
-    """fd of the (only) mmap'able array map of that value size"""
+def array_fd(tracker, size, last=False):
+    """fd of the (only) mmap'able array map of that value size; last=True:
+    of the one created last (an earlier program had a map of that size too)"""
     fds = [fd for fd, (t, ks, vs, mx, *_) in tracker.maps.items()
            if t == 2 and vs == size]
+    if last and fds:
+        return max(fds)
     if len(fds) != 1:
         raise HarnessError(f"cannot identify array map of size {size}: {fds}")
     return fds[0]
